@@ -43,4 +43,6 @@ VARIANTS = [
              new='                take = tokens[11] == "1"\n                if not take and tokens[11] == "0":\n                    take = tokens[14] == "1"\n                if take:\n                    contacts.append((int(tokens[5]), tokens[4], int(tokens[9]), tokens[8]))')]),
     dict(name='moltype-kept-when-already-set (seed C18_j)', expect='fire', key='STORE-overwrite|vermouth/rcsu/go_pipeline.py|GoProcessorPipeline.prepare_run', edits=[
         dict(file='vermouth/rcsu/go_pipeline.py', old="        molecule.meta['moltype'] = moltype", new="        molecule.meta.setdefault('moltype', moltype)")]),
+    dict(name='helper select_backbone ignores the force field backbone name', expect='fire', key='HELPER-contract|vermouth/selectors.py|select_backbone', edits=[
+        dict(file='vermouth/selectors.py', old="    return node.get('atomname') == bb_atomname", new="    return node.get('atomname') == 'BB'")]),
 ]
